@@ -98,6 +98,9 @@ class Contract(object):
             gu[norm_stmt(text)] = [fns[n] for n in names]
         self.ghost_updates = gu
         self.ghost_vars = dict(getattr(self.cls, "ghost_vars", {}))
+        ab = dict(getattr(self.cls, "abstracted", {}))
+        if ab:
+            self.options["abstracted"] = {norm_head(k): dict(v) for k, v in ab.items()}
         for k, u in self.loop_unroll.items():
             self.loops.setdefault(k, LoopSpec()).unroll = u
         return self
@@ -114,6 +117,17 @@ def norm_stmt(text):
         return ast.unparse(ast.parse(textwrap.dedent(text)).body[0])
     except SyntaxError:
         return " ".join(text.split())
+
+
+def norm_head(text):
+    """canonical first line of a (compound) statement given by its header, or canonical text of a simple statement"""
+    t = text.strip()
+    if t.endswith(":"):
+        try:
+            return ast.unparse(ast.parse(t + "\n    pass").body[0]).split("\n")[0].strip()
+        except SyntaxError:
+            return " ".join(t.split())
+    return norm_stmt(t)
 
 
 _spec_infos = {}
